@@ -9,15 +9,25 @@ SOURCES = ["src/allmydata/uri.py", "src/allmydata/immutable/filenode.py", "src/a
 DESIGN_REF = "DESIGN.md §2 C43"
 TECHNIQUE = ("Lean 4 theorems over a per-class transcription of __eq__/__ne__/__hash__ and of CPython's operator dispatch "
              "(NotImplemented, reflected call, identity fallback); differential correspondence on pairs of real cap and node "
-             "objects at operator and at method granularity")
-LEVEL_TEXT = ("eq_iff_same_string, ne_is_not_eq, eq_reflexive/eq_symmetric/eq_transitive, cross_class_unequal, "
-              "cross_kind_caps_unequal, eqMethod_total, hash_depends_only_on_class_and_caps and eq_implies_hash_eq are proved in Lean for every pair of "
-              "modelled classes (18 cap classes, UnknownURI, ImmutableFileNode, LiteralFileNode, MutableFileNode, "
-              "DirectoryNode, UnknownNode, unrelated objects); the model is tied to the code by comparing ==, !=, the four "
-              "method results and hash equality on seeded pairs of real objects, and by extracted class prefixes and "
-              "method owners.")
+             "objects at operator and at method granularity, in every usage state of the objects (read-only accessors applied to "
+             "neither / one / both operands before comparing)")
+LEVEL_TEXT = ("18 theorems, none partial, for every pair of modelled classes (18 cap classes, UnknownURI, ImmutableFileNode, LiteralFileNode, "
+              "MutableFileNode, DirectoryNode, UnknownNode, unrelated objects): eq_iff_same_string (two nodes / two caps are == exactly when "
+              "their capability strings are equal), cross_class_unequal, cross_kind_caps_unequal, eq_reflexive, eq_symmetric, eq_transitive; "
+              "ne_is_not_eq (!= is the negation of == for every pair of objects, through the whole operator protocol) and eqMethod_total; "
+              "eq_implies_hash_eq (equal objects hash equally, under every interpretation of CPython's hash functions), "
+              "hash_depends_only_on_class_and_caps and equal_objects_hashable (hash() evaluates for every class). "
+              "shipped_ne_counterexample, shipped_dirnode_counterexample, shipped_unknownuri_counterexample and "
+              "unknownnode_unhashable_counterexample document the four defects of the originally shipped code (all repaired in /repo); "
+              "uri_classes_pinned, prefixes_pinned, dunder_owners_pinned tie the class list, cap prefixes and method owners to the source. "
+              "The model is tied to the code by comparing ==, !=, the four method results, hash equality and class invariants on seeded and "
+              "fixed-corpus pairs of real objects.")
 LEVEL_NOTE = ("Lean kernel + standard axioms; the model is a hand transcription tied by correspondence; hash values are "
-              "symbolic (theorem holds for every interpretation); cap-string prefix-freeness is proved from the extracted prefixes.")
+              "symbolic (theorems hold for every interpretation); cap-string prefix-freeness is proved from the extracted prefixes. "
+              "Four genuine defects were found and are fixed in /repo (ImmutableFileNode.__ne__ returned the result of __eq__; DirectoryNode and "
+              "UnknownURI compared by identity; UnknownNode was unhashable, fix 8fd04af); no open finding. Correspondence/monitor only (no theorem "
+              "about the implementation): that equality does not depend on what was done to the objects before (usage states); not covered: the "
+              "relation between a cap's fields and its string (C15), CiphertextFileNode and ProhibitedNode.")
 RULE = ("seeded pools of cap strings of every class (equal, near-equal, read/write/verify/directory variants of one key, "
         "unknown-format strings) wrapped into cap objects (uri.from_string, with and without ro./imm. prefix) and node "
         "objects (direct constructors and NodeMaker.create_from_cap); a case is one ordered pair of objects; distinct = "
@@ -28,14 +38,14 @@ RULE = ("seeded pools of cap strings of every class (equal, near-equal, read/wri
         "dict/set membership …) is applied to neither / the left / the right / both operands, compared again, applied to the "
         "other side, compared again, hashed and looked up in dict/set, compared again: ==, !=, symmetry, hash agreement and "
         "dict/set lookup must follow string equality in every one of these states")
-TRUSTED = ["lean/Tahoe/Identity/Model.lean is a hand transcription of the six classes' comparison methods and of CPython's "
-           "rich-comparison dispatch",
+TRUSTED = ["lean/Tahoe/Identity/Model.lean is a hand transcription of the comparison and hash methods of _BaseURI, UnknownURI and the "
+           "five node classes (Variant.fixed = the code in /repo) and of CPython's rich-comparison dispatch",
            "objects are abstracted to (class, id(), cap string(s)); CPython hash functions are uninterpreted"]
 ASSUMPTIONS = [
     "the capability strings of an UnknownNode are the pair (get_write_uri(), get_readonly_uri()); of every other node get_uri(); of a cap object to_string()",
-    "'equal objects hash equally' requires hash() to evaluate for two equal nodes / two equal caps (every class is hashable: UnknownNode.__hash__ = hash((class, ro_uri, rw_uri)) since 8fd04af); an unhashable pair is reported as unhashable-equal-objects:<classes>",
-    "uri.from_string is a function of (string, deep_immutable): within one parse context an UnknownURI never holds a string that is the to_string() of a parsed cap (hypothesis ParseFunctional); pairs mixing a cap parsed normally with the UnknownURI error marker of the same string parsed under deep_immutable=True are skipped and counted",
-    "distinct live objects have distinct id() and object.__hash__ (hash collisions between unequal symbolic hash values are possible in principle; none is expected in 64 bits)",
+    "'equal objects hash equally' is read as: hash() evaluates for two equal nodes / two equal caps and gives the same value (theorems equal_objects_hashable, eq_implies_hash_eq; an unhashable pair on the implementation is reported as unhashable-equal-objects:<classes>)",
+    "uri.from_string is a function of (string, deep_immutable): within one parse context an UnknownURI never holds a string that is the to_string() of a parsed cap (hypothesis ParseFunctional of eq_iff_same_string); pairs mixing a cap parsed normally with the UnknownURI error marker of the same string parsed under deep_immutable=True are skipped and counted",
+    "distinct live objects have distinct id() and object.__hash__ (hypothesis IdConsistent of eq_symmetric, eq_transitive, cross_class_unequal, eq_implies_hash_eq; hash collisions between unequal symbolic hash values are possible in principle; none is expected in 64 bits)",
     "CiphertextFileNode (verify-cap node without get_uri/get_cap) and ProhibitedNode are outside the model",
 ]
 
